@@ -31,7 +31,7 @@ func vfC28DInput(r *vfRand, n int, special bool) []byte {
 			p = r.Pick(vfC28DPieces[:17])
 		}
 		if b.Len()+len(p) > n {
-			p = "x"
+			p = r.Pick([]string{"x", "\n", " ", "a", "\n"})
 		}
 		b.WriteString(p)
 	}
@@ -40,10 +40,12 @@ func vfC28DInput(r *vfRand, n int, special bool) []byte {
 
 func TestVerifC28D(t *testing.T) {
 	r := vfNewRand(vfSeed())
-	envTerm := "None"
-	rawEnv, isSet := os.LookupEnv(envThreshold)
+	// the environment as the model sees it: unset / set to a text that is not the decimal form of an int64 / a number.
+	// Independent reading of the setting (harness side): optional sign, decimal digits, must fit int64.
+	envTerm := "EnvUnset"
+	rawEnv, isSet := os.LookupEnv("ZOEKT_RE2_THRESHOLD_BYTES")
 	if isSet {
-		// independent reading of the setting (harness side): optional sign, decimal digits, must fit int64
+		envTerm = "EnvBad"
 		ok := rawEnv != ""
 		for i, c := range rawEnv {
 			if !(c >= '0' && c <= '9') && !(i == 0 && (c == '+' || c == '-') && len(rawEnv) > 1) {
@@ -52,7 +54,7 @@ func TestVerifC28D(t *testing.T) {
 		}
 		if ok {
 			if v, ok2 := new(big.Int).SetString(rawEnv, 10); ok2 && v.IsInt64() {
-				envTerm = cSome(cZ(v.Int64()))
+				envTerm = "(EnvInt " + cZ(v.Int64()) + ")"
 			}
 		}
 	}
